@@ -15,6 +15,7 @@ import (
 	"regexp"
 	"sort"
 	"strconv"
+	"strings"
 	"sync"
 	"testing"
 	"time"
@@ -40,11 +41,16 @@ type Finding struct {
 	Replay    string   `json:"replay,omitempty"` // path relative to /verif
 	Sigs      []string `json:"sigs,omitempty"`   // anchored regexps over discrepancy signatures
 	Avoid     []string `json:"avoid,omitempty"`  // generator shapes excluded by construction while the finding is open
+	Points    string   `json:"points,omitempty"` // file (relative to /verif) listing exact discrepancy signatures of a closed grid, one per line
+	points    map[string]bool
 	res       []*regexp.Regexp
 }
 
 // Match reports whether the discrepancy signature sig is exactly one this finding describes.
 func (f *Finding) Match(sig string) bool {
+	if f.points[sig] {
+		return true
+	}
 	for _, re := range f.res {
 		if re.MatchString(sig) {
 			return true
@@ -165,6 +171,16 @@ func (r *Run) loadFindings() {
 	for _, f := range kf.Findings {
 		for _, s := range f.Sigs {
 			f.res = append(f.res, regexp.MustCompile("^(?:"+s+")$"))
+		}
+		if f.Points != "" {
+			f.points = map[string]bool{}
+			if data, err := os.ReadFile(filepath.Join(r.Root, f.Points)); err == nil {
+				for _, line := range strings.Split(string(data), "\n") {
+					if line = strings.TrimSpace(line); line != "" {
+						f.points[line] = true
+					}
+				}
+			}
 		}
 		r.all = append(r.all, f)
 		if f.Property == r.ID {
